@@ -627,6 +627,9 @@ BODIES = [
     ("RPDAC_locate", "StringDictionaryRPDAC.cpp", "StringDictionaryRPDAC::locate", 0),
     ("RPDAC_extract", "StringDictionaryRPDAC.cpp", "StringDictionaryRPDAC::extract", 0),
     ("RePair_compareDAC", "RePair/RePair.cpp", "RePair::extractStringAndCompareDAC", 0),
+    ("RePair_compareRP", "RePair/RePair.cpp", "RePair::extractStringAndCompareRP", 0),
+    ("HASHRPF_locate", "StringDictionaryHASHRPF.cpp", "StringDictionaryHASHRPF::locate", 0),
+    ("Hash_insert", "Hash/Hash.cpp", "Hash::insert", 0),
     ("RePair_compareRule", "RePair/RePair.cpp", "RePair::expandRuleAndCompareString", 0),
     ("RePair_expandRule", "RePair/RePair.cpp", "RePair::expandRule", 0),
     ("RPDAC_locatePrefix", "StringDictionaryRPDAC.cpp", "StringDictionaryRPDAC::locatePrefix", 0),
